@@ -67,3 +67,7 @@ Definition entry_pcm (v : val) : val :=
               (pcm_call sizer held univ aw)
   | _ => bad_input
   end.
+
+(** "pcm_seq": a list of "pcm" inputs *)
+Definition entry_pcm_seq (v : val) : val :=
+  match v with VL l => VL (map entry_pcm l) | _ => bad_input end.
